@@ -3,6 +3,7 @@
 (ProbeMech, real population models and filters, unsorted unique times); names, IDs and counts are
 compared literally, the value with the documented sum up to ONE constant per configuration (three
 parameter vectors), the gradient exactly (complex step through the documented value)."""
+import itertools
 import warnings
 
 import numpy as np
@@ -46,9 +47,27 @@ def replay_case(arg):
     log_scale = bool(rng.integers(2))
     fkind = ['GaussianFilter', 'LogNormalFilter'][int(rng.integers(2))] if log_scale else \
         ['GaussianFilter', 'GaussianKDEFilter'][int(rng.integers(2))]
-    times = rng.permutation(np.round(0.4 + 0.7 * np.arange(nt), 2))          # unsorted, unique
+    # unsorted, unique times: the permutation is chosen by content, so that all n_times! input orders (3-cycles included,
+    # which are not their own inverse) occur over the enumeration
+    perms = list(itertools.permutations(range(nt)))
+    perm = np.array(perms[int(key, 16) % len(perms)])
+    times = np.round(0.4 + 0.7 * np.arange(nt), 2)[perm]
     data = np.round(rng.uniform(1.0, 6.0, size=(3, nobs, nt)), 3)
     order = np.argsort(times)
+    if list(perm) != sorted(perm):
+        feats.append('unsorted_times')
+        cnt['feat_unsorted_times'] = 1
+    if list(np.argsort(perm)) != list(perm):
+        feats.append('order_not_involution')
+        cnt['feat_order_not_involution'] = 1
+    # a filter composed over the time points (first m times / the rest), possibly of two kinds
+    split = 0
+    if nt >= 2 and (int(key, 16) // 7) % 2 == 0:
+        split = 1 + (int(key, 16) // 14) % (nt - 1)
+        allowed = ['GaussianFilter', 'LogNormalFilter'] if log_scale else ['GaussianFilter', 'GaussianKDEFilter']
+        fkind2 = allowed[int(rng.integers(2))]
+        feats.append('composed_filter')
+        cnt['feat_composed_filter'] = 1
     leaves = [build_leaf(m) for m in rec['subs']]
     pop = leaves[0] if (len(leaves) == 1 and rng.integers(2) == 0) else chi.ComposedPopulationModel(leaves)
     covs = np.round(rng.uniform(0.0, 1.0, size=(ns, max(rec['ncov'], 1))), 2)[:, :rec['ncov']]
@@ -59,7 +78,11 @@ def replay_case(arg):
     try:
         with warnings.catch_warnings():
             warnings.simplefilter('error', RuntimeWarning)
-            filt = getattr(chi, fkind)(data.copy())
+            if split:
+                filt = chi.ComposedPopulationFilter([getattr(chi, fkind)(data[..., :split].copy()),
+                                                     getattr(chi, fkind2)(data[..., split:].copy())])
+            else:
+                filt = getattr(chi, fkind)(data.copy())
             post = chi.PopulationFilterLogPosterior(
                 filt, times.copy(), mech, pop, prior, sigma=sig_fixed, error_on_log_scale=log_scale, n_samples=ns,
                 covariates=(covs if rec['ncov'] > 0 else None))
@@ -87,7 +110,8 @@ def replay_case(arg):
     # ---- value up to one constant, gradient exactly -------------------------------------------
     shim = dict(subs=rec['subs'], nids=ns, ndim=ndim, layout=rec['layout'])
     poprefs = Reference(shim, [None] * ns, covs, {})
-    fref = filter_reference(fkind, data[..., order])
+    kinds_in = [fkind] * nt if not split else [fkind] * split + [fkind2] * (nt - split)
+    fref = filter_reference([kinds_in[j] for j in order], data[..., order])
     st = np.sort(times)
     pos = {tuple(s): k for k, s in enumerate(rec['layout'])}
 
@@ -157,5 +181,5 @@ def replay_case(arg):
         if not np.array_equal(x_in, x):
             fail('NoInputWrite', 'parameters_modified', None)
     if max(diffs) - min(diffs) > 1e-9 * vscale:
-        fail('Denotation', 'value_up_to_constant', dict(differences=diffs, filter=fkind, log_scale=log_scale))
+        fail('Denotation', 'value_up_to_constant', dict(differences=diffs, filter=kinds_in, log_scale=log_scale))
     return fails, cnt
